@@ -57,6 +57,11 @@ func main() {
 		return
 	}
 	if os.Args[1] == "tcprobe" {
+		if len(os.Args) > 2 {
+			b, _ := os.ReadFile(os.Args[2])
+			fmt.Println(hx.TcOne(d, string(b)))
+			return
+		}
 		hx.TcProbe(d, 600)
 		return
 	}
